@@ -141,7 +141,14 @@ def render_steps(doc, table, cover, n, first_types=("given", "when", "then"), pr
         allkw = [a for k in STEP_TYPES for a in table[k]]
         if any(len(a) > len(kw) and ((kw + name).startswith(a) or (kw + name).lower().startswith(a.lower())) for a in allkw):
             name = "q " + name
-        ln = doc.emit(kw + name)
+        # step keywords are recognised whatever their letter case; the model records the keyword as the table spells it
+        written = kw
+        if rnd.random() < 0.2:
+            v = rnd.choice([kw.upper(), kw.lower(), kw[:1] + kw[1:].swapcase(), kw.title()])
+            # (not when the table has another keyword that differs from this one by letter case only: ht 'Sipoze ke' / 'Sipoze Ke')
+            if len(v) == len(kw) and v.lower() == kw.lower() and not any(a != kw and a.lower() == kw.lower() for a in allkw):
+                written = v
+        ln = doc.emit(written + name)
         st = {"kw": kw.rstrip(), "type": stype, "name": name, "line": ln, "text": None, "table": None}
         r = rnd.random()
         if r < 0.2:
